@@ -35,7 +35,8 @@ func c06Gen(r *rand.Rand, tier string) any {
 		if r.IntN(2) == 0 {
 			m.Funcs = append(m.Funcs, helperSpec{Name: fmt.Sprintf("lib%d_f0", i), Lit: genValue(r, literalKinds)})
 		}
-		m.Fails = r.IntN(12) == 0
+		m.Fails = r.IntN(10) == 0
+		m.FailHow = r.IntN(3)
 		p.Modules = append(p.Modules, m)
 	}
 	addLoad := func(a, b int) {
